@@ -127,9 +127,10 @@ func (s *Protocol) Invoke(ctx context.Context, req []byte) (rsp []byte) {
 				err = s.dispatcher.Dispatch(ctx, s.serverImp, &reqPackage, &rspPackage, s.withContext)
 				// execute post server filters
 				for i, v := range s.app.allFilters.postSfs {
-					err = v(ctx, s.dispatcher.Dispatch, s.serverImp, &reqPackage, &rspPackage, s.withContext)
-					if err != nil {
-						TLOG.Errorf("Post filter error, No.%v, err: %v", i, err)
+					// a post filter's result must not replace the outcome of the call itself
+					filterErr := v(ctx, s.dispatcher.Dispatch, s.serverImp, &reqPackage, &rspPackage, s.withContext)
+					if filterErr != nil {
+						TLOG.Errorf("Post filter error, No.%v, err: %v", i, filterErr)
 					}
 				}
 			}
